@@ -13,6 +13,8 @@ Two levels.
 
 **Whole classes** — `Desc`: the walk of `_fields_` with nested structs and struct arrays and the byte layout; `toDict`
 / `fromDict` mirror `_to_dict` / `_from_dict` including their failure modes (`DErr`).
+
+The JSON text layer is `Model/Json.lean`, storage (copies, views) is `Model/Heap.lean`.
 -/
 namespace Pyrtma.Serial
 open Pyrtma.Validators
